@@ -60,6 +60,9 @@ func c06Special(t *verifrt.Tape) []string {
 		`SecRule ARGS "@rx ^(\w+)\s(\w+)$" "id:171,phase:2,pass,nolog,capture,t:urlDecode,setvar:tx.w1=%{TX.1},setvar:tx.w2=%{TX.2}"`,
 		`SecRule REQUEST_COOKIES "@beginsWith %{tx.w1}" "id:172,phase:2,pass,nolog"`,
 		`SecRule ARGS "@endsWith %{MATCHED_VAR}" "id:173,phase:2,pass,nolog,chain"` + "\n" + `  SecRule MATCHED_VARS "@within %{tx.w1} %{tx.w2} evil" "t:lowercase"`,
+		// ENV is per transaction: what one request exported (setenv) is not there
+		// when the next one starts (174 reads before 175 writes; 176 reads after)
+		`SecRule ENV:simmark "@rx ." "id:174,phase:1,pass,log,msg:'env %{MATCHED_VAR}'"` + "\n" + `SecRule REQUEST_URI "@contains tok" "id:175,phase:1,pass,nolog,setenv:simmark=%{REQUEST_URI}"` + "\n" + `SecRule ENV:simmark "@contains tok" "id:176,phase:2,pass,nolog"`,
 	}
 	var out []string
 	for _, l := range pool {
